@@ -553,3 +553,13 @@ def run(ctx):  # noqa: F811
     m = ctx.model
     L, E, subs = population(ctx)
     r02_56(ctx, m, L, E, subs)
+
+
+_run_c02_base = run
+
+
+def run(ctx):  # noqa: F811
+    _run_c02_base(ctx)
+    # LinearInterpolator: matrix construction (shared with C35)
+    from .c35 import r35_4
+    r35_4(ctx, ctx.model, rid="R02.7")
